@@ -12,6 +12,7 @@ import (
 	"strings"
 	"sync"
 	"sync/atomic"
+	"syscall"
 	"testing"
 	"time"
 
@@ -518,5 +519,92 @@ func TestC16_StalledReader(t *testing.T) {
 			t.Errorf("VIOLATION-CANDIDATE key=%s: %s", id, what)
 		}
 		g.restart()
+	}
+}
+
+// ---- shutdown while AOF clients come and go ------------------------------------------------
+
+const shutdownRaceID = "crash-shutdown-aofconn-map-race"
+
+// TestC16_ShutdownAOFConns is a regression guard, not a sensitivity proof: the
+// old code (shutdown goroutine ranging over s.aofconnM without the lock while
+// liveAOF adds/removes entries) dies only sometimes.
+func TestC16_ShutdownAOFConns(t *testing.T) {
+	c := ev.New("C16", "shutdown-aofconns", "exploration")
+	t.Cleanup(c.Flush)
+	t.Cleanup(func() { drainExcluded(c) })
+	rounds := ev.Pick(3, 20)
+	c.Rule(fmt.Sprintf("%d rounds: a subprocess server with 8 client goroutines that loop `connect, AOF 0, read a little, disconnect` gets SIGTERM after 100-200 ms; it must exit within 20 s without `fatal error` / `panic` in its output (the shutdown goroutine walks the map of AOF connections that liveAOF changes). Regression guard only: the race fires only sometimes.", rounds))
+	g := newGuard(t, c)
+	defer g.stop()
+	for r := 0; r < rounds; r++ {
+		c.Case()
+		m := pidRE.FindStringSubmatch(g.p.Stderr.String())
+		if m == nil {
+			t.Fatalf("harness: no PID in the server banner")
+		}
+		pid, _ := strconv.Atoi(m[1])
+		g.ctl.Do("SET", "k1", "a", "POINT", "1", "2")
+		stop := make(chan struct{})
+		var wg sync.WaitGroup
+		var conns int64
+		for w := 0; w < 8; w++ {
+			wg.Add(1)
+			go func() {
+				defer wg.Done()
+				buf := make([]byte, 4096)
+				for {
+					select {
+					case <-stop:
+						return
+					default:
+					}
+					cn, err := net.DialTimeout("tcp", g.p.Addr, time.Second)
+					if err != nil {
+						time.Sleep(time.Millisecond)
+						continue
+					}
+					atomic.AddInt64(&conns, 1)
+					cn.SetDeadline(time.Now().Add(time.Second))
+					cn.Write(encRESP([]string{"AOF", "0"}))
+					cn.Read(buf)
+					cn.Close()
+				}
+			}()
+		}
+		time.Sleep(time.Duration(100+r*5) * time.Millisecond)
+		syscall.Kill(pid, syscall.SIGTERM)
+		exited := false
+		for i := 0; i < 800; i++ {
+			if !g.p.Alive() {
+				exited = true
+				break
+			}
+			time.Sleep(25 * time.Millisecond)
+		}
+		close(stop)
+		wg.Wait()
+		out := g.p.Stderr.String()
+		c.LabelN("aof-connections", int(atomic.LoadInt64(&conns)))
+		problem := ""
+		if loc := panicLineRE.FindStringIndex(out); loc != nil {
+			problem = fmt.Sprintf("the server died during shutdown: %s at %s", out[loc[0]:loc[1]], topFrame(out[loc[0]:]))
+		} else if !exited {
+			problem = "the server did not exit within 20 s of SIGTERM"
+		}
+		if problem != "" {
+			what := fmt.Sprintf("round %d: SIGTERM while 8 clients connect / AOF 0 / disconnect (%d connections so far): %s", r, conns, problem)
+			if ev.KnownActive(shutdownRaceID) {
+				c.Known(shutdownRaceID, what)
+			} else {
+				c.Violation(shutdownRaceID, what, map[string]any{"round": r, "output_tail": clip(out[max(0, len(out)-1500):], 1500)})
+				t.Errorf("VIOLATION-CANDIDATE key=%s: %s", shutdownRaceID, what)
+			}
+			break
+		}
+		c.NonTrivial(fmt.Sprintf("round-%d", r))
+		if err := g.restart(); err != nil {
+			t.Fatalf("harness: restart: %v", err)
+		}
 	}
 }
